@@ -1,6 +1,7 @@
 """C18 — the API-backed client maps bundles and aliases consistently, race-free."""
 import collections
 import os
+import re
 import subprocess
 
 import lib
@@ -12,12 +13,12 @@ LEVEL = "proof"
 RULE = ("generated npm universes (packages, versions, four dependency sections + bundleDependencies, bundle trees of "
         "depth <= 3, aliases incl. scoped names, is_default) served by an in-process fake pb.InsightsClient; observed: "
         "histories of the four APIClient calls on plain and mangled names, the npm graph over APIClient vs LocalClient, "
-        "16 goroutines sharing one APIClient (also under -race); a universe is non-trivial when it has a nested bundle "
-        "or an alias")
+        "16 goroutines sharing one APIClient (also under -race); counted as non-trivial: universes with a nested bundle "
+        "or an alias, and resolutions whose two graphs are equal and have more than two nodes")
 TRUSTED = [
-    "Coq 8.16.1 kernel; vm_compute for the examples and the literal-table obligation",
-    "translator harness/go/cmd/gotables (attribute keys, api System/VersionType numbers and the string literals of "
-    "flattenNPMDeps/npmRequirements/mangledName/isNPMBundle/makeVersion regenerated from the Go sources each run)",
+    "Coq 8.16.1 kernel; vm_compute for the examples and the constants obligation",
+    "translator harness/go/cmd/gotables (attribute keys, api System and VersionType numbers regenerated from the Go "
+    "sources each run)",
     "extraction (ExtrOcamlBasic only) + Extract/driver.ml; Go harness cmd/implrun (apiclient.go: fake Insights service, "
     "recording client, LocalClient loader written from the property text); python generator and oracle",
     "resolve.MatchRequirement (semver matching) enters the model as a table computed by the Go side per universe",
@@ -53,8 +54,10 @@ MANIFEST = dict(
           "service, LocalClient loader), python generator/oracle, the Go race detector. The model is hand-written and "
           "validated by execution each run. Physical data races are outside the model (critical sections are atomic): "
           "-race runs are supporting evidence. The resolver and LocalClient are not modelled in this package; the graph "
-          "clause is an oracle on Go outputs. Open finding F-C18-1: a dependency on a package unknown to the service "
-          "aborts API-backed resolution while LocalClient yields a graph with a node error."),
+          "clause is an oracle on Go outputs. Open findings: F-C18-1 a dependency on a package unknown to the service "
+          "aborts API-backed resolution while LocalClient yields a graph with a node error; F-C18-2 requirements with "
+          "tying sort keys come in different orders from the two clients (unstable sort over lists of different length), "
+          "which can change the graph."),
     technique="Rocq proof over a hand-written state-machine model + differential correspondence + direct oracle on Go (incl. go -race)",
     design="8 C18")
 
@@ -166,12 +169,10 @@ def build_history(rng, u, cls):
             continue
         add([3, n, r])
     add([3, u["pkgs"][0]["name"], b"latest"])
-    # wrong versions on mangled names (modelled, not demanded by the oracle)
+    # a requirement with another version string on a mangled name matches nothing (api.go says so explicitly)
     for r in with_b[:2]:
         e = rng.choice(idx[r])
         add([3, e["m"], b"9.9.9"])
-        add([0, e["m"], b"9.9.9"])
-        add([2, e["m"], b"9.9.9"])
     add([1, b"nosuch>1.0.0>x"])
     return ops, tags, idx, roots
 
@@ -294,8 +295,34 @@ def read_npm_system():
 
 # ----------------------------------------------------------------------------- graphs
 
-def classify_graph(u, ga, gl, ta, wf):
-    """returns None when equal, else a class name; 'F-C18-1' for the known class"""
+def tie_reorder_only(ta, tl):
+    """F-C18-2: do the two resolutions see the same client, except that requirements whose sort keys tie
+    (same shown name) come in a different order?  True when (1) every call made in both resolutions has
+    the same answer up to the order of a Requirements list, and (2) for some Requirements call the
+    non-mangled requirements come in different orders."""
+    ma = {sx(o): r for o, r in ta}
+    ml = {sx(o): r for o, r in tl}
+    reordered = False
+    for k, ra in ma.items():
+        rl = ml.get(k)
+        if rl is None:
+            continue
+        if ra == rl:
+            continue
+        if k.startswith("(2 ") and ra[0] == b"ok" and rl[0] == b"ok":
+            if sorted(map(sx, ra[1])) != sorted(map(sx, rl[1])):
+                return False
+            pa = [sx(x) for x in ra[1] if b">" not in x[0][1]]
+            pl = [sx(x) for x in rl[1] if b">" not in x[0][1]]
+            if pa != pl:
+                reordered = True
+            continue
+        return False
+    return reordered
+
+
+def classify_graph(u, ga, gl, ta, tl, wf):
+    """returns None when equal, else a class name; 'F-C18-1' / 'F-C18-2' for the known classes"""
     if ga == gl:
         return None
     if any(p["fail"] for p in u["pkgs"]):
@@ -309,6 +336,8 @@ def classify_graph(u, ga, gl, ta, wf):
         known = {p["name"] for p in u["pkgs"]}
         if op[0] in (1, 3) and b">" not in op[1] and op[1] not in known and res == [b"notfound"]:
             return "F-C18-1"
+    if tie_reorder_only(ta, tl):
+        return "F-C18-2"
     return "violation"
 
 
@@ -365,13 +394,20 @@ def run_conc(ctx, binary, lines, race):
                 # the detector reported but no case was flagged: blame the batch
                 results.append((part[0], None, "exit status 66 (race detector) in a batch of %d cases\n%s" % (len(part), err[-1500:])))
             continue
-        # crash (e.g. fatal error: concurrent map writes): find the case
+        # crash (e.g. fatal error: concurrent map writes): find failing cases (a few per batch are enough)
+        found = 0
         for l in part:
+            if found >= 2:
+                break
             rc1, o1, e1 = one_batch([l])
             if len(o1) == 1 and rc1 in (0, 66):
                 results.append((l, parse_sx(o1[0]), e1 if rc1 == 66 else ""))
             else:
+                found += 1
                 results.append((l, None, "exit status %d\n%s" % (rc1, e1[-1500:])))
+        if found == 0:
+            results.append((part[0], None, "a batch of %d cases died (exit status %d) but no single case reproduces it\n%s"
+                            % (len(part), rc, err[-1500:])))
     racelog = ""
     if race:
         for f in os.listdir(lib.BUILD):
@@ -395,7 +431,22 @@ def replay_known(ctx):
             ctx.count("known:%s:witness-reproduced" % k["id"])
 
 
+def limit_violations(ctx, per_kind=4):
+    """keep at most per_kind violations of one kind in the replay (all are counted)"""
+    orig = ctx.violation
+    seen = collections.Counter()
+
+    def violation(what, input, observed=None, required=None, kind="oracle"):
+        key = re.sub(r"\S*[>@/]\S*", "_", what)[:80]
+        seen[key] += 1
+        ctx.count("violation:" + key)
+        if seen[key] <= per_kind:
+            orig(what, input, observed, required, kind)
+    ctx.violation = violation
+
+
 def run(ctx, with_model=True):
+    limit_violations(ctx)
     rng = ctx.rng
     keys = key_numbers(ctx)
     read_npm_system()
@@ -448,40 +499,55 @@ def run(ctx, with_model=True):
 
     # ---- 2. graphs: APIClient vs LocalClient holding the same data; the resolver's own call trace
     gcases, gmeta = [], []
+    # persistent corpus of past failures first (harness/corpus/C18.txt: api_graph lines)
+    corpus = os.path.join(lib.VERIF, "harness/corpus/C18.txt")
+    if os.path.exists(corpus):
+        for cl in open(corpus):
+            cl = cl.rstrip("\n")
+            if not cl.startswith("api_graph\t"):
+                continue
+            a = parse_sx(cl.split("\t", 1)[1])
+            cu = {"pkgs": [{"name": p[0], "fail": p[1]} for p in a[0][0]]}
+            gcases.append(cl.split("\t", 1)[1])
+            gmeta.append((cu, (a[1], a[2]), sx(a[0])))
+            ctx.count("graph:corpus")
     per_uni = ctx.scale(2, 3)
     for (u, cls, strict), (ops, tags, idx, roots) in zip(unis, hist):
         rs = sorted(roots, key=lambda r: -len(idx[r]))[:1] + roots[:per_uni - 1]
         for r in dict.fromkeys(rs):
             gcases.append(sx([G.universe_sx(u), r[0], r[1]]))
-            gmeta.append((u, r))
+            gmeta.append((u, r, sx(G.universe_sx(u))))
     gout = ctx.impl("api_graph", gcases)
     trace_cases, trace_meta = [], []
     tq2 = []
-    for (u, r), case, line in zip(gmeta, gcases, gout):
+    for (u, r, usx), case, line in zip(gmeta, gcases, gout):
         ga, gl, ta, tl, wf = parse_sx(line)
         if ga == [b"panic"] or gl == [b"panic"]:
             ctx.violation("npm resolution panicked (%s)" % ("API" if ga == [b"panic"] else "Local"), "api_graph\t" + case,
                           observed=sx([ga, gl])[:3000])
             continue
-        c = classify_graph(u, ga, gl, ta, wf)
+        c = classify_graph(u, ga, gl, ta, tl, wf)
         ctx.count("graph:" + ("equal:" + ga[0].decode() if c is None else c))
         if c == "violation":
             ctx.violation("graph over APIClient differs from graph over LocalClient holding the same data",
                           "api_graph\t" + case, observed=sx(ga)[:3000], required=sx(gl)[:3000])
-        elif c == "F-C18-1":
-            ctx.known_hits["F-C18-1"] = ctx.known_hits.get("F-C18-1", 0) + 1
+        elif c in ("F-C18-1", "F-C18-2"):
+            ctx.known_hits[c] = ctx.known_hits.get(c, 0) + 1
         if c is None and ga[0] == b"ok" and len(ga[2]) > 2:
             ctx.nontriv(("graph", case))
+            if not any(isinstance(x, dict) and x.get("kind") == "api_graph" for x in ctx.samples):
+                ctx.sample({"kind": "api_graph", "case": case[:500], "graph_api": sx(ga)[:400], "graph_local_equal": True,
+                            "resolver_calls": len(ta)})
         trace_cases.append([o for o, _ in ta])
-        trace_meta.append((u, r, ta, case))
-        tq2.append(sx([G.universe_sx(u), [[n, q] for n, q in table_queries([o for o, _ in ta])]]))
+        trace_meta.append((usx, r, ta, case))
+        tq2.append("(" + usx + " " + sx([[n, q] for n, q in table_queries([o for o, _ in ta])]) + ")")
     # trace discipline (hypothesis of C18_interleaving / C18_lazy_eq_eager) on the recorded API traces,
     # and the model replayed on exactly the calls the resolver made
     if with_model and trace_cases:
         wfs = ctx.model("api_tracewf", [sx(t) for t in trace_cases])
         tabs = ctx.impl("api_table", tq2)
-        mcases = ["(" + sx(G.universe_sx(u)) + " " + tb + " " + sx(t) + ")"
-                  for (u, r, ta, case), tb, t in zip(trace_meta, tabs, trace_cases)]
+        mcases = ["(" + usx + " " + tb + " " + sx(t) + ")"
+                  for (usx, r, ta, case), tb, t in zip(trace_meta, tabs, trace_cases)]
         mout = ctx.model("api", mcases)
         ctx.count("corr:api(resolver-trace)", len(mcases))
         ctx.evaluations += len(mcases)
@@ -517,11 +583,13 @@ def run(ctx, with_model=True):
                               l, observed=(err + "\n" + racelog)[-3000:], required="no crash, no data race report")
             elif r[2]:
                 ctx.violation("DATA RACE reported by the race detector while 16 goroutines share one APIClient", l,
-                              observed=(racelog or err)[-3000:], required="no data race report")
+                              observed=(racelog or err)[:3000], required="no data race report")
             elif r[0] != 0:
                 ctx.violation("a goroutine sharing the APIClient got a result different from its sequential result (%s)" % label,
                               l, observed=sx(r[1][0])[:3000], required="equal to the sequential resolution")
 
+    if ccases:
+        ctx.sample({"kind": "api_conc", "case": ccases[0][:400], "goroutines": 16, "rounds": rounds})
     res, _ = run_conc(ctx, os.path.join(lib.BUILD, "implrun"), ccases, race=False)
     judge(res, "", "plain")
     racebin = build_race(ctx)
@@ -539,4 +607,10 @@ def run(ctx, with_model=True):
 
 
 def oracle_only(ctx):
+    """the model or a proof did not build: the Go-side oracles can still look for a failing input,
+    provided the Go harness itself builds against the tree (otherwise build/implrun is stale)"""
+    try:
+        lib.build_go()
+    except lib.BuildError:
+        return
     run(ctx, with_model=False)
